@@ -75,11 +75,32 @@ CONTENT = {
 _CANON = {json.dumps(v, sort_keys=True): k for k, v in CONTENT.items()}
 
 
+def content_of(c):
+    return CONTENT[c] if c in CONTENT else json.loads(c[2:])      # 'x:<json>' = a literal inner object
+
+
 def dtext(d):
     """case-level delegation value (None | '' | [[delegation id, content name]...]) -> property text"""
     if d is None or d == '':
         return d
-    return json.dumps({k: CONTENT[c] for k, c in d})
+    return json.dumps({k: content_of(c) for k, c in d})
+
+
+def norm_inner(inner):
+    """one delegation's inner object in the form Delegations.from_json -> to_json leaves it (merge_adm round-trips
+    delegation properties through these; their exactness is C12's subject), sorted keys"""
+    try:
+        from fim.slivers.delegations import Delegations, DelegationType
+        at = DelegationType.LABEL if ('labels' in inner or 'pool' in inner and 'capacities' not in inner) else DelegationType.CAPACITY
+        for t in (at, DelegationType.CAPACITY, DelegationType.LABEL):
+            try:
+                return json.dumps(json.loads(Delegations.from_json(json_str=json.dumps({'k': inner}), atype=t).to_json())['k'],
+                                  sort_keys=True)
+            except Exception:
+                continue
+    except Exception:
+        pass
+    return json.dumps(inner, sort_keys=True)
 
 
 def canon_del(text):
@@ -89,7 +110,11 @@ def canon_del(text):
         return ''
     try:
         d = json.loads(text)
-        return [[k, _CANON.get(json.dumps(v, sort_keys=True), 'x:' + json.dumps(v, sort_keys=True))] for k, v in d.items()]
+        out = []
+        for k, v in d.items():
+            t = json.dumps(v, sort_keys=True)
+            out.append([k, _CANON[t] if t in _CANON else 'x:' + norm_inner(v)])
+        return out
     except Exception:
         return [['bad', 'x:' + repr(text)]]
 
@@ -501,9 +526,9 @@ def wf_adm(snap):
 
 
 def consistent(src):
-    """src: list of source snapshots.  A stitching element is ONE element: a node id shared by two sources has the
-    same class and plain properties in both, at most one source delegates it (per delegation kind), and a connection
-    described by both has the same class and properties in both."""
+    """src: list of source snapshots.  At most one source delegates a shared node (per delegation kind): the code
+    refuses the merge otherwise (C14_double_speaker_rejected).  Differing class / plain properties of a shared element
+    are NOT excluded here: the code silently keeps those of whichever model was merged first (finding F4)."""
     for i, a in enumerate(src):
         for j, b in enumerate(src):
             if i >= j:
@@ -511,32 +536,40 @@ def consistent(src):
             na = {n[0]: n for n in a[0]}
             nb = {n[0]: n for n in b[0]}
             for k in set(na) & set(nb):
-                if na[k][1] != nb[k][1] or na[k][2] != nb[k][2]:
-                    return False
                 if (na[k][4] is not None and nb[k][4] is not None) or (na[k][5] is not None and nb[k][5] is not None):
-                    return False
-            ea = {(e[0], e[1]): e for e in a[1]}
-            eb = {(e[0], e[1]): e for e in b[1]}
-            for (x, y), e in ea.items():
-                if (x, y) in eb and eb[(x, y)][2:4] != e[2:4]:
                     return False
     return True
 
 
-def expected_union(src, gids, M):
+def expected_union(src, gids, M, all_descriptions=False):
     """the combined model the property describes for the set M of merged sources (indices), modulo equivalence:
-    [ {node id: (class, props, contributor set, label delegations, capacity delegations)}, {pair: (class, props)} ]"""
+    [ {node id: (descriptions [(class, props)] given by the merged sources, contributor set, label delegations,
+    capacity delegations)}, {pair: descriptions [(class, props)]} ]"""
     nodes, edges = {}, {}
     for k in sorted(M):
         for n in src[k][0]:
-            ent = nodes.setdefault(n[0], [n[1], n[2], set(), None, None])
-            ent[2].add(gids[k])
+            ent = nodes.setdefault(n[0], [[], set(), None, None])
+            if [n[1], n[2]] not in ent[0]:
+                ent[0].append([n[1], n[2]])
+            ent[1].add(gids[k])
             if n[4] is not None:
-                ent[3] = [[gids[k], n[4][0][1]]]
+                ent[2] = [[gids[k], n[4][0][1]]]
             if n[5] is not None:
-                ent[4] = [[gids[k], n[5][0][1]]]
+                ent[3] = [[gids[k], n[5][0][1]]]
         for e in src[k][1]:
-            edges.setdefault((e[0], e[1]), [e[2], e[3]])
+            ent = edges.setdefault((e[0], e[1]), [])
+            if [e[2], e[3]] not in ent:
+                ent.append([e[2], e[3]])
+    if all_descriptions:        # also accept the description given by a source that is not (or no longer) merged
+        for k in range(len(src)):
+            if k in M or src[k] is None:
+                continue
+            for n in src[k][0]:
+                if n[0] in nodes and [n[1], n[2]] not in nodes[n[0]][0]:
+                    nodes[n[0]][0].append([n[1], n[2]])
+            for e in src[k][1]:
+                if (e[0], e[1]) in edges and [e[2], e[3]] not in edges[(e[0], e[1])]:
+                    edges[(e[0], e[1])].append([e[2], e[3]])
     return nodes, edges
 
 
@@ -567,24 +600,30 @@ def diff_union(got, exp):
     if set(gn) != set(en):
         return 'node set differs: extra %s missing %s' % (sorted(set(gn) - set(en)), sorted(set(en) - set(gn)))
     for k in sorted(gn):
-        if gn[k][2] != en[k][2]:
-            return 'node %s records contributors %s, contributed by %s' % (k, sorted(gn[k][2]), sorted(en[k][2]))
-        if gn[k][3] != en[k][3] or gn[k][4] != en[k][4]:
-            return 'node %s delegations %s/%s, expected keyed by contributor %s/%s' % (k, gn[k][3], gn[k][4], en[k][3], en[k][4])
-        if gn[k][:2] != en[k][:2]:
-            return 'node %s class/properties %s, expected %s' % (k, gn[k][:2], en[k][:2])
+        if gn[k][2] != en[k][1]:
+            return 'node %s records contributors %s, contributed by %s' % (k, sorted(gn[k][2]), sorted(en[k][1]))
+        if gn[k][3] != en[k][2] or gn[k][4] != en[k][3]:
+            return 'node %s delegations %s/%s, expected keyed by contributor %s/%s' % (k, gn[k][3], gn[k][4], en[k][2], en[k][3])
+        if gn[k][:2] not in en[k][0]:
+            return 'node %s class/properties %s, described by the merged sources as %s' % (k, gn[k][:2], en[k][0])
     if set(ge) != set(ee):
         return 'connections differ: extra %s missing %s' % (sorted(set(ge) - set(ee)), sorted(set(ee) - set(ge)))
     for k in sorted(ge):
-        if ge[k] != ee[k]:
-            return 'connection %s is %s, expected %s' % (k, ge[k], ee[k])
+        if ge[k] not in ee[k]:
+            return 'connection %s is %s, described by the merged sources as %s' % (k, ge[k], ee[k])
     return None
+
+
+def blank_descriptions(got):
+    """the equivalence view with class / plain properties of nodes and connections blanked"""
+    return ({k: v[2:] for k, v in got[0].items()}, sorted(got[1]))
 
 
 F1 = 'F1-contraction: '
 F2 = 'F2-edge-residue: '
 F3 = 'F3-all-common: '
-KNOWN_TAGS = (F1, F2, F3)
+F4 = 'F4-order-dependent: '
+KNOWN_TAGS = (F1, F2, F3, F4)
 
 
 def edge_residue(got, exp, src0, M2):
@@ -592,10 +631,10 @@ def edge_residue(got, exp, src0, M2):
     (only) by sources no longer merged -> the sorted list of those connections, else None"""
     gn, ge, dup = got
     en, ee = exp
-    if dup or set(gn) != set(en) or any(gn[k] != en[k] for k in gn):
+    if dup or set(gn) != set(en) or any(gn[k][2:] != en[k][1:] or gn[k][:2] not in en[k][0] for k in gn):
         return None
     extra = set(ge) - set(ee)
-    if not extra or set(ee) - set(ge) or any(ge[k] != ee[k] for k in ee):
+    if not extra or set(ee) - set(ge) or any(ge[k] not in ee[k] for k in ee):
         return None
     others = set()
     for k, s in enumerate(src0):
@@ -659,6 +698,15 @@ def oracle_history(case, hist, src0, steps, by_set):
             snapM.append((set(M), copy.deepcopy(o['cbm'])) if o['res'] == 'ok' else None)
         if d:
             res_e = edge_residue(got, expected_union(src0, gids, M2), src0, M2)
+            stale = None if res_e else diff_union(got, expected_union(src0, gids, M2, all_descriptions=True))
+            if not res_e and stale is None:
+                fails.append(F4 + tag + 'an element keeps the class / plain properties given by a model that is no longer '
+                             'merged: ' + d)
+                M = M2
+                prev = o['cbm']
+                if op[0] == 'rollback':
+                    used.add(op[1])
+                continue
             if res_e:
                 fails.append(F2 + tag + 'connections %s, contributed only by models that are no longer merged, stay in '
                              'the combined model (merged: %s)' % (res_e, sorted(gids[k] for k in M2)))
@@ -675,8 +723,15 @@ def oracle_history(case, hist, src0, steps, by_set):
         key = frozenset(M2)
         if key in by_set:
             if by_set[key][0][:2] != got[:2]:
-                fails.append(tag + 'combined model for contributors %s differs from the one reached by %s' % (
-                    sorted(gids[k] for k in M2), by_set[key][1]))
+                if blank_descriptions(by_set[key][0]) == blank_descriptions(got):
+                    dk = sorted(k for k in got[0] if got[0][k][:2] != by_set[key][0][0][k][:2]) + \
+                        sorted('%s-%s' % k for k in got[1] if got[1][k] != by_set[key][0][1][k])
+                    fails.append(F4 + tag + 'class / plain properties of %s (described differently by the sources) differ '
+                                 'from the combined model for the same contributors %s reached by %s' % (
+                                     dk[:4], sorted(gids[k] for k in M2), by_set[key][1]))
+                else:
+                    fails.append(tag + 'combined model for contributors %s differs from the one reached by %s' % (
+                        sorted(gids[k] for k in M2), by_set[key][1]))
         else:
             by_set[key] = (got, '%s[:%d]' % (hist, i + 1))
         if op[0] == 'rollback':
@@ -708,7 +763,7 @@ class Histories(Stream):
             'two of them; distinct by family and histories')
 
     def gen(self, rng, tier):
-        n = 110 if tier == 'quick' else 1500
+        n = 110 if tier == 'quick' else 1000
         out = []
         for i in range(n):
             fam = gen_family(rng)
@@ -792,6 +847,7 @@ class Histories(Stream):
             h['cases_F1_contraction'] += any(f.startswith(F1) for f in fails)
             h['cases_F2_edge_residue'] += any(f.startswith(F2) for f in fails)
             h['cases_F3_all_common'] += any(f.startswith(F3) for f in fails)
+            h['cases_F4_order_dependent'] += any(f.startswith(F4) for f in fails)
         return dict(sorted(h.items()))
 
     def describe(self, case, obs):
@@ -876,6 +932,65 @@ class Histories(Stream):
         return case
 
 
+# ----------------------------------------------------------------------------------------------
+# the real advertisements: the repository's own substrate tests build the RENCI / UKY / LBNL / Network site models
+# (test/substrate_topology_test.py writes them as GraphML), the real generate_adms turns each into its delegation
+# model(s); these four are the one fixed set the (Neo4j-only) suite merges in one order
+# ----------------------------------------------------------------------------------------------
+_REAL = {}
+
+
+def real_family():
+    if 'fam' in _REAL:
+        return _REAL['fam']
+    fam = None
+    import tempfile, unittest, io, contextlib
+    d = tempfile.mkdtemp(prefix='c14_ads_')
+    cwd = os.getcwd()
+    tdir = os.path.join(REPO, 'test')
+    try:
+        os.chdir(d)
+        sys.path.insert(0, tdir)
+        import substrate_topology_test as stt
+        with contextlib.redirect_stdout(io.StringIO()):
+            suite = unittest.TestSuite([stt.AdTest(m) for m in ('testRENCSiteAd', 'testUKYSiteAd', 'testLBNLSiteAd',
+                                                                'testNetworkAd')])
+            r = unittest.TextTestRunner(stream=io.StringIO()).run(suite)
+        if not r.wasSuccessful():
+            raise RuntimeError('substrate tests failed')
+        I = impl()
+        from fim.graph.networkx_property_graph import NetworkXPropertyGraph
+        from fim.graph.resources.networkx_arm import NetworkXARMGraph
+        imp = I['Importer']()
+        imp.delete_all_graphs()
+        adms = []
+        for f in ('RENCI-ad.graphml', 'UKY-ad.graphml', 'LBNL-ad.graphml', 'Network-ad.graphml'):
+            g = imp.import_graph_from_file_direct(graph_file=f)
+            arm = NetworkXARMGraph(graph=NetworkXPropertyGraph(graph_id=g.graph_id, importer=imp))
+            for k, a in sorted(arm.generate_adms().items()):
+                gr = imp.storage.extract_graph(a.graph_id)
+                nodes, edges = [], []
+                for n, dd in gr.nodes(data=True):
+                    oth = sorted([kk, str(v)] for kk, v in dd.items() if kk not in SPECIAL)
+                    nodes.append([dd['NodeID'], dd['Class'], oth, dd.get('StructuralInfo'),
+                                  canon_del(dd.get('LabelDelegations')), canon_del(dd.get('CapacityDelegations'))])
+                for x, y, dd in gr.edges(data=True):
+                    edges.append([gr.nodes[x]['NodeID'], gr.nodes[y]['NodeID'], dd.get('Class'),
+                                  sorted([kk, str(v)] for kk, v in dd.items() if kk != 'Class')])
+                adms.append({'gid': 'adm-%d' % (len(adms) + 1), 'from': '%s/%s' % (f, k), 'nodes': nodes, 'edges': edges})
+        imp.delete_all_graphs()
+        fam = {'adms': adms, 'mode': 'real-advertisements'}
+    except Exception as e:
+        _REAL['err'] = repr(e)
+    finally:
+        os.chdir(cwd)
+        if tdir in sys.path:
+            sys.path.remove(tdir)
+        shutil.rmtree(d, ignore_errors=True)
+    _REAL['fam'] = fam
+    return fam
+
+
 def N(nid, cls, oth=None, si=None, ld=None, cd=None):
     return [nid, cls, oth or [], si, ld, cd]
 
@@ -913,11 +1028,76 @@ CORPUS = [
 ]
 
 
+class RealModels(Histories):
+    name = 'real'
+    shard = 1
+    rule = ('the four advertisements (RENCI, UKY, LBNL, Network) built by test/substrate_topology_test.py, turned into '
+            'delegation models by the real generate_adms (66-95 nodes each, the network model shares 13 nodes with each '
+            'site); merge permutations (4 in quick, all 24 in thorough) and interleavings with unmerge/snapshot/rollback; '
+            'non-trivial = always; distinct by histories')
+
+    def gen(self, rng, tier):
+        fam = real_family()
+        if fam is None:
+            log('C14: the real advertisements could not be built: %s' % _REAL.get('err'))
+            return []
+        k = len(fam['adms'])
+        perms = perm_histories(k)
+        if tier == 'quick':
+            hs = [perms[0], perms[-1]] + rng.sample(perms[1:-1], 2) + [gen_history(rng, k, 8)] + inverse_histories(k, rng)[:3]
+            return [dict(copy.deepcopy(fam), hists=hs)]
+        out = []
+        for i in range(0, len(perms), 6):
+            out.append(dict(copy.deepcopy(fam), hists=perms[i:i + 6] + [gen_history(rng, k, 12)] + inverse_histories(k, rng)))
+        return out
+
+    def corpus(self):
+        return []
+
+    def key(self, case, obs):
+        return stable_hash(case['hists'])
+
+    def describe(self, case, obs):
+        return {'family': [{'gid': a['gid'], 'from': a.get('from'), 'nodes': len(a['nodes']), 'edges': len(a['edges'])}
+                           for a in case['adms']],
+                'first_history': case['hists'][0], 'results': [s['res'] for s in obs['runs'][0][1]],
+                'final_combined_nodes': len(obs['runs'][0][1][-1]['cbm'][0]) if obs['runs'][0][1][-1]['cbm'] else 0}
+
+    def shrink(self, case, failing):
+        # keep the real models; reduce to one history and drop operations
+        case = copy.deepcopy(case)
+        kind0 = self.kind(self.oracle(case, self.observe(case)))
+
+        def attempt(c2):
+            try:
+                return self.kind(self.oracle(c2, self.observe(c2))) == kind0
+            except Exception:
+                return False
+        for h in case['hists']:
+            c2 = dict(case, hists=[h])
+            if attempt(c2):
+                case = c2
+                break
+        if len(case['hists']) == 1:
+            changed = True
+            while changed:
+                changed = False
+                for i in reversed(range(len(case['hists'][0]))):
+                    h2 = case['hists'][0][:i] + case['hists'][0][i + 1:]
+                    if not h2 or (any(op[0] == 'rollback' for op in h2) and case['hists'][0][i][0] == 'snap'):
+                        continue
+                    c2 = dict(case, hists=[h2])
+                    if attempt(c2):
+                        case = c2
+                        changed = True
+        return case
+
+
 class C14(Check):
     pid = 'C14'
     translators = []
     model_targets = ['Model/Cbm14Store.vo', 'Model/Cbm14Check.vo', 'Model/Cbm14Spec.vo', 'Model/Cbm14SpecCheck.vo']
-    streams = [Histories()]
+    streams = [Histories(), RealModels()]
     trusted_base = [
         'Coq 8.16.1 kernel (coqc), vm_compute for the correspondence evaluation; no native_compute',
         'Print Assumptions of every C14 theorem: Closed under the global context (no axioms)',
@@ -946,7 +1126,8 @@ class C14(Check):
     ]
 
     def refuted_witnesses(self):
-        return [('C14_unmerge_edge_refuted', witness_edge), ('C14_contraction_refuted', witness_contraction)]
+        return [('C14_unmerge_edge_refuted', witness_edge), ('C14_contraction_refuted', witness_contraction),
+                ('C14_order_refuted', witness_order)]
 
 
 def witness_edge():
@@ -960,6 +1141,20 @@ def witness_edge():
     _, st = run_history(case, [['merge', 0], ['merge', 1], ['merge', 2], ['unmerge', 'adm-2']])
     still = st[1]['cbm'] is not None and st[3]['cbm'] is not None and st[1]['cbm'][1] != st[3]['cbm'][1]
     return still, {'case': case, 'after_merge_B1_B3': st[1]['cbm'], 'after_merge_B2_unmerge_B2': st[3]['cbm']}
+
+
+def witness_order():
+    """Proofs/Cbm14Dec.v order_dependent_refuted: P1 and P2 describe their common node differently"""
+    case = {'adms': [
+        {'gid': 'adm-1', 'nodes': [N('s1', 'ConnectionPoint', [['StitchNode', 'true']]), N('p1-1', 'NetworkNode')],
+         'edges': [['s1', 'p1-1', 'has', []]]},
+        {'gid': 'adm-2', 'nodes': [N('s1', 'ConnectionPoint', [['StitchNode', 'false']]), N('p2-1', 'Link', cd=[['del1', 'c1']])],
+         'edges': [['s1', 'p2-1', 'connects', []]]}]}
+    _, a = run_history(case, [['merge', 0], ['merge', 1]])
+    _, b = run_history(case, [['merge', 1], ['merge', 0]])
+    va, vb = equiv_view(a[1]['cbm']), equiv_view(b[1]['cbm'])
+    still = a[1]['res'] == 'ok' and b[1]['res'] == 'ok' and va[:2] != vb[:2]
+    return still, {'case': case, 'merge_1_then_2': a[1]['cbm'], 'merge_2_then_1': b[1]['cbm']}
 
 
 def witness_contraction():
